@@ -15,7 +15,7 @@ SERVES = ["C16", "C17"]
 
 
 # ------------------------------------------------------------------ build scenarios (C16, build half)
-def build_scenario(K, p, actions, is_async, K2=2):
+def build_scenario(K, p, actions, is_async, K2=2, sub_at=0):
     """Builder 1 pauses inside its describing function before call site p+1 (p = K: after the last one);
     meanwhile other threads perform `actions` (subset of calldag / callxn / build2). Returns the event list."""
     from tawazi import dag, xn
@@ -37,6 +37,26 @@ def build_scenario(K, p, actions, is_async, K2=2):
     def shared(x):
         return inc(inc(x))
 
+    in_run, run_go = threading.Event(), threading.Event()
+
+    @xn
+    def slow(x):
+        in_run.set()
+        run_go.wait(10)
+        return x + 2
+
+    @dag
+    def shared_slow(x):
+        return slow(x)
+
+    @xn
+    def g1(x):
+        return x
+
+    @dag
+    def inner(x):
+        return g1(x)
+
     def mk(name):
         def f(*a):
             return name
@@ -54,7 +74,10 @@ def build_scenario(K, p, actions, is_async, K2=2):
                 if pause and p == i - 1:
                     at.set()
                     go.wait(5)
-                v = fa[i - 1](v) if v is not None else fa[i - 1]()
+                if i == sub_at:
+                    v = inner(v if v is not None else 1)      # a nested DAG call: its nodes get the prefix "inner."
+                else:
+                    v = fa[i - 1](v) if v is not None else fa[i - 1]()
                 log("describe", 1, i)
             if pause and p == K:
                 at.set()
@@ -99,7 +122,7 @@ def build_scenario(K, p, actions, is_async, K2=2):
         (calldag if base == "calldag" else callxn)()
     for idx, a in enumerate(actions):
         base = a.split(":")[0]
-        if base in ("calldag", "callxn"):
+        if base in ("calldag", "callxn") and not a.endswith(":span"):
             prepared[idx], starts[idx] = threading.Event(), threading.Event()
             acts[idx] = threading.Thread(target=caller, args=(idx, base, a.endswith(":afterfail")))
             acts[idx].start()
@@ -137,8 +160,7 @@ def build_scenario(K, p, actions, is_async, K2=2):
             out["B"] = dag(describeB)
         except BaseException as e:  # noqa: BLE001
             out["B_err"] = repr(e)[:200]
-    go_act = {}
-    done_act = {}
+    spans = []
     for idx, a in enumerate(actions):
         base = a.split(":")[0]
         if base == "build2":
@@ -146,6 +168,19 @@ def build_scenario(K, p, actions, is_async, K2=2):
             th.start()
             th.join(0.15)       # must still be waiting for the build lock
             threads.append(th)
+            continue
+        if a.endswith(":span"):
+            # a run of a built DAG that is in flight (inside a node function) while the build goes on, released at the end
+            def spanrun():
+                try:
+                    r = shared_slow(5)
+                    results["span"] = "ran" if r == 7 else f"value:{r!r}"[:40]
+                except BaseException as e:  # noqa: BLE001
+                    results["span"] = "error:" + type(e).__name__
+            th = threading.Thread(target=spanrun)
+            th.start()
+            in_run.wait(5)
+            spans.append(th)
             continue
         prepared[idx].wait(5)
         starts[idx].set()
@@ -155,6 +190,10 @@ def build_scenario(K, p, actions, is_async, K2=2):
     ta.join(5)
     for th in threads:
         th.join(5)
+    run_go.set()
+    for th in spans:
+        th.join(5)
+        log("calldag", 3, out=results.get("span", "hang"))
 
     def table(d, own, me):
         tbl = set()
@@ -163,12 +202,14 @@ def build_scenario(K, p, actions, is_async, K2=2):
                 tbl.add((me, own.index(i) + 1))
             elif ">!>" in i or "<!<" in i:
                 continue
+            elif sub_at and me == 1 and "inner." in i:
+                tbl.add((me, sub_at))
             else:
                 tbl.add((9, 0))     # a node that does not belong to this description
         return sorted(tbl)
     if "A" in out:
         same = list(out["A"].exec_nodes) == list(alone.exec_nodes) and list(out["A"].results) == list(alone.results)
-        log("construct", 1, out="same" if same else "differs", tbl=table(out["A"], [f"fa{i}" for i in range(1, K + 1)], 1))
+        log("construct", 1, out="same" if same else "differs", tbl=table(out["A"], [f"fa{i}" if i != sub_at else "-" for i in range(1, K + 1)], 1))
     else:
         log("construct", 1, out="error:" + out.get("A_err", "?"), tbl=[])
     if "build2" in actions:
@@ -203,16 +244,23 @@ def run_build(tier, seed):
             for a in acts:
                 for is_async in ((False, True) if tier != "quick" else (False,)):
                     scen.append((K, p, a, is_async))
+    scen = [x + (0,) for x in scen]
+    # runs of a built DAG that span (parts of) a build whose description contains a nested DAG call
+    for K in (2, 3):
+        for sub_at in range(1, K + 1):
+            for p in range(0, K + 1):
+                for a in (["calldag:span"], ["calldag:span", "callxn"], ["calldag", "calldag:span"]):
+                    scen.append((K, p, a, False, sub_at))
     if tier == "quick":
         rng = random.Random(seed)
-        scen = scen + [(K, p, a, True) for (K, p, a, _) in rng.sample(scen, 10)]
+        scen = scen + [(K, p, a, True, sa) for (K, p, a, _, sa) in rng.sample(scen, 10)]
     traces = []
     errors = []
-    for i, (K, p, a, is_async) in enumerate(scen):
-        r = build_scenario(K, p, a, is_async)
+    for i, (K, p, a, is_async, sub_at) in enumerate(scen):
+        r = build_scenario(K, p, a, is_async, sub_at=sub_at)
         if r.get("error"):
             errors.append(r["error"])
-        traces.append({"tid": i + 1, "k": r["k"], "ev": r["ev"], "scenario": {"K": K, "pause_before_site": p + 1, "actions": a, "async": is_async}})
+        traces.append({"tid": i + 1, "k": r["k"], "ev": r["ev"], "scenario": {"K": K, "pause_before_site": p + 1, "actions": a, "async": is_async, "sub_at": sub_at}})
     os.makedirs(common.CACHE, exist_ok=True)
     path = os.path.join(common.CACHE, f"e5-build-{os.getpid()}.json")
     with open(path, "w") as f:
@@ -276,7 +324,10 @@ def conc_program(P, argsets, mode, seed):
         return [{"harness_error": "build: " + repr(e)[:120]}]
     # the property is about calls made after the setup nodes have run: run them first, outside the observation
     setup_paths = [[j] for j, st in enumerate(P["sites"], 1) if st.get("setup")]
-    if setup_paths:
+    # threads: the property speaks of calls made after the setup nodes have run. Gathered awaits: also without that -
+    # every await must still get its own result (a setup node may then be computed by more than one of them)
+    presetup = bool(setup_paths) and (mode == "threads" or rng.random() < 0.5)
+    if presetup:
         try:
             pr.PRE_HOOK = None
             asyncio.run(d.setup()) if mode == "gather" else d.setup()
@@ -342,8 +393,8 @@ def conc_program(P, argsets, mode, seed):
         kind, v = outs[t] if outs[t] else ("err", RuntimeError("call did not finish"))
         row = {"given": [pg.encode(x) for x in argsets[t]], "raised": kind == "err", "errclass": pr.errclass(v) if kind == "err" else "",
                "val": pg.encode(v) if kind == "ok" else pg.verr(), "exec": [], "dup": False, "async": mode == "gather", "built": True,
-               "twice": False, "conc": 1 if mode == "threads" else 2, "loop": 0, "pre": setup_paths, "ref": pr.plain_call(P, argsets[t])}
-        if row["ref"].get("exec") is not None:
+               "twice": False, "conc": 1 if mode == "threads" else 2, "loop": 0, "pre": setup_paths if presetup else [], "ref": pr.plain_call(P, argsets[t])}
+        if row["ref"].get("exec") is not None and presetup:
             row["ref"]["exec"] = [p for p in row["ref"]["exec"] if p not in setup_paths]
         rows.append(row)
     # executed sites are not attributed to the individual calls here (values carry the evidence): exec = expected when the
@@ -362,6 +413,10 @@ def conc_program(P, argsets, mode, seed):
     for iid, c in total.items():
         if iid in inv:
             observed_total[tuple(inv[iid])] = c
+    if not presetup:
+        for sp in setup_paths:      # without a prior setup() several of the concurrent calls may compute a setup node
+            expected_total.pop(tuple(sp), None)
+            observed_total.pop(tuple(sp), None)
     if all("val" in r["ref"] for r in rows) and not any(r["raised"] for r in rows) and observed_total != expected_total:
         rows[0]["dup"] = True
     if mode == "gather":
@@ -519,7 +574,7 @@ def report(prop, res):
 def replay(payload, log=common.say):
     if payload["kind"] == "build":
         s = payload["scenario"]
-        r = build_scenario(s["K"], s["pause_before_site"] - 1, s["actions"], s["async"])
+        r = build_scenario(s["K"], s["pause_before_site"] - 1, s["actions"], s["async"], sub_at=s.get("sub_at", 0))
         path = os.path.join(common.CACHE, f"e5-replay-{os.getpid()}.json")
         os.makedirs(common.CACHE, exist_ok=True)
         with open(path, "w") as f:
